@@ -73,6 +73,10 @@ def gen_range(rng, freq):
     k = rng.random()
     f = freq
     pick = lambda: float(rng.choice([rng.uniform(f[0] * 0.5, f[-1] * 1.3), f[int(rng.integers(0, len(f)))]]))
+    if rng.random() < 0.07:
+        # a limit of exactly zero (int or float) is a limit, not "no limit": 0 and 0.0 are falsy in Python, None is the only open end
+        z = 0 if rng.random() < 0.5 else 0.0
+        return [(None, z), (z, None), (z, z), (pick(), z), (z, pick())][int(rng.integers(0, 5))]
     if k < 0.25:
         return (None, None)
     if k < 0.4:
